@@ -22,7 +22,9 @@
 #include "table/filter_block.h"
 
 #include "table/filter_block.c"
-#include "util/bloom.c"
+#ifndef FLT_NO_BLOOM
+#include "util/bloom.c" /* left out of the reader/builder units: bloom_match would be a second candidate target of policy->match */
+#endif
 
 #ifndef VERIF_NATIVE
 int nondet_int(void);
@@ -78,30 +80,34 @@ void h_filter_init(void) {
 }
 
 /* ldb_filter_matches: fr is in a state produced by ldb_filter_init on the
- * block (g_blk, g_blk_n) */
+ * block (g_blk, g_blk_n).  Logical variables (bound by the requires clauses,
+ * so that every byte of the block is read once in the specification):
+ *   g_ao     = array_offset word of the block
+ *   g_index  = block_offset >> base_lg
+ *   g_start / g_limit = offset-array entries #index and #index+1 (when index < num) */
 const uint8_t *g_blk; size_t g_blk_n;
-#define FM_AO (LE32_AT(g_blk + (g_blk_n - 5)))
+size_t g_ao; uint32_t g_start, g_limit;
 #define FM_RI(fr) ((fr)->base_lg < 64 && ((fr)->num == 0 || \
-   (g_blk_n >= 5 && FM_AO <= g_blk_n - 5 && (fr)->data == g_blk && (fr)->offset == g_blk + FM_AO && (fr)->num == (g_blk_n - 5 - FM_AO) / 4)))
+   (g_blk_n >= 5 && g_ao == LE32_AT(g_blk + (g_blk_n - 5)) && g_ao <= g_blk_n - 5 && \
+    (fr)->data == g_blk && (fr)->offset == g_blk + g_ao && (fr)->num == (g_blk_n - 5 - g_ao) / 4)))
 #define FM_INDEX (block_offset >> fr->base_lg)
-#define FM_START LE32_AT(fr->offset + FM_INDEX * 4)
-#define FM_LIMIT LE32_AT(fr->offset + FM_INDEX * 4 + 4)
 #define FM_INRANGE (FM_INDEX < fr->num)
-#define FM_USABLE (FM_START <= FM_LIMIT && FM_LIMIT <= FM_AO)
+#define FM_USABLE (g_start <= g_limit && g_limit <= g_ao)
 
 int c_filter_matches(const ldb_filter_t *fr, uint64_t block_offset, const ldb_slice_t *key)
 __CPROVER_requires(__CPROVER_r_ok(fr, sizeof(*fr)) && __CPROVER_r_ok(key, sizeof(*key)))
 __CPROVER_requires(__CPROVER_r_ok(g_blk, g_blk_n) && FM_RI(fr))
+__CPROVER_requires(!FM_INRANGE || (g_start == LE32_AT(fr->offset + FM_INDEX * 4) && g_limit == LE32_AT(fr->offset + FM_INDEX * 4 + 4)))
 __CPROVER_requires(__CPROVER_r_ok(fr->policy, sizeof(*fr->policy)) && fr->policy->match == stub_match && g_match_calls == 0)
 __CPROVER_assigns(g_match_calls, g_match_bloom, g_match_fdata, g_match_flen, g_match_key, g_match_ret)
 /* no filter for this block offset (unusable block, index beyond the array): may match, policy not asked */
 __CPROVER_ensures(FM_INRANGE || (__CPROVER_return_value == 1 && g_match_calls == 0))
 /* well-formed entry: the policy decides, on exactly filter #(block_offset >> base_lg) = [start, limit) and the caller's key */
 __CPROVER_ensures(!FM_INRANGE || !FM_USABLE ||
-   (g_match_calls == 1 && g_match_bloom == fr->policy && g_match_fdata == g_blk + FM_START && g_match_flen == (size_t)(FM_LIMIT - FM_START) &&
+   (g_match_calls == 1 && g_match_bloom == fr->policy && g_match_fdata == g_blk + g_start && g_match_flen == (size_t)(g_limit - g_start) &&
     g_match_key == key && __CPROVER_return_value == g_match_ret))
 /* malformed entry (start > limit, or limit beyond the offset array): may match - never a false negative; except the empty filter start == limit: no match, as in LevelDB */
-__CPROVER_ensures(!FM_INRANGE || FM_USABLE || (g_match_calls == 0 && __CPROVER_return_value == (FM_START == FM_LIMIT ? 0 : 1)))
+__CPROVER_ensures(!FM_INRANGE || FM_USABLE || (g_match_calls == 0 && __CPROVER_return_value == (g_start == g_limit ? 0 : 1)))
 ;
 
 void h_filter_matches(void) {
@@ -113,16 +119,15 @@ void h_filter_matches(void) {
   pol.match = stub_match; pol.build = NULL;
   ldb_filter_init(&fr, &pol, &c);      /* real initialiser (its own contract: flt.init) */
   g_blk = buf; g_blk_n = in_n; g_match_calls = 0;
-#ifdef DBG
-  CHECK(FM_RI(&fr), "dbg RI");
-  CHECK(fr.policy->match == stub_match, "dbg match");
-  CHECK(__CPROVER_r_ok(g_blk, g_blk_n), "dbg rok");
-  CHECK(0, "dbg reach");
-#endif
+  /* logical variables: arbitrary here, bound by the requires clauses of the contract */
+  g_ao = nondet_size(); g_start = nondet_u32(); g_limit = nondet_u32();
+  ASSUME(in_n < 5 || g_ao == LE32_AT(buf + (in_n - 5)));
+  CHECK(FM_RI(&fr), "filter_init leaves the reader in the state filter_matches requires (offset array inside the block)");
   ldb_filter_matches(&fr, in_block_offset, &key);
   CANARY();
 }
 
+#ifndef FLT_NO_BLOOM
 /* ================================================================ flt.bloom
  * bounded: <= 3 keys of <= 6 bytes, real ldb_hash */
 #define BL_MAXKEYS 3
@@ -204,3 +209,4 @@ void h_bloom_match(void) {
   CANARY();
 }
 #endif
+#endif /* !FLT_NO_BLOOM */
